@@ -67,7 +67,7 @@ def val(kind, j):
 
 SINGLE = {'append', 'add', 'insert', 'setitem', 'delitem', 'remove', 'discard', 'pop', 'wedge'}
 BULK = {'setslice', 'delslice', 'sort', 'reverse', 'clear', 'extend', 'update', 'iadd',
-        'ior', 'iand', 'isub', 'ixor'}
+        'ior', 'iand', 'isub', 'ixor', 'self_ior', 'self_iand', 'self_isub', 'self_ixor'}
 PURE = {'or', 'and', 'sub', 'xor', 'plus', 'copy', 'getslice'}
 
 def gen_ops(rng, kind, n, faults=True):
@@ -86,7 +86,8 @@ def gen_ops(rng, kind, n, faults=True):
     names = ['append'] * 6 + ['add'] * 4 + ['insert'] * 4 + ['setitem'] * 4 + ['delitem'] * 2 + \
         ['remove'] * 2 + ['discard'] * 2 + ['pop'] * 2 + ['setslice'] * 4 + ['delslice'] * 2 + \
         ['sort', 'reverse', 'reverse', 'clear', 'extend', 'extend', 'update', 'iadd', 'ior', 'iand',
-         'isub', 'ixor', 'or', 'and', 'sub', 'xor', 'plus', 'copy', 'copy', 'getslice']
+         'isub', 'ixor', 'or', 'and', 'sub', 'xor', 'plus', 'copy', 'copy', 'getslice',
+         'self_ior', 'self_iand', 'self_isub', 'self_ixor']
     if kind == 'linqset':
         names += ['wedge'] * 4
     for _ in range(n):
@@ -111,7 +112,7 @@ def gen_ops(rng, kind, n, faults=True):
             ops.append([name, sl()])
         elif name == 'sort':
             ops.append([name, rng.random() < 0.5])
-        elif name in ('reverse', 'clear', 'copy'):
+        elif name in ('reverse', 'clear', 'copy') or name.startswith('self_'):
             ops.append([name])
         elif name == 'wedge':
             ops.append([name, v(), v(), rng.choice([-1, 1])])
@@ -280,6 +281,10 @@ def model_apply(kind, m, op):
         elif name == 'isub':
             drop = [V(j) for j in op[1]]
             r = [x for x in r if x not in drop]
+        elif name in ('self_ior', 'self_iand'):
+            pass                     # s |= s, s &= s : unchanged
+        elif name in ('self_isub', 'self_ixor'):
+            r.clear()                # s -= s, s ^= s : empty
         elif name == 'ixor':
             seen = []
             for j in op[1]:
@@ -325,6 +330,10 @@ def impl_apply(kind, c, op):
     elif name == 'iand': c &= [V(j) for j in op[1]]
     elif name == 'isub': c -= [V(j) for j in op[1]]
     elif name == 'ixor': c ^= [V(j) for j in op[1]]
+    elif name == 'self_ior': c |= c
+    elif name == 'self_iand': c &= c
+    elif name == 'self_isub': c -= c
+    elif name == 'self_ixor': c ^= c
     else: raise KeyError(name)
     return c
 
